@@ -11,6 +11,7 @@ J = 3
 if args[:1] == ["-j"]:
     J = int(args[1]); args = args[2:]
 idx = json.load(open(os.path.join(D, "index.json")))
+known = idx.pop("known_false_alarms", {})
 todo = [(p, props) for p, props in sorted(idx.items()) if not args or any(a in p for a in args)]
 slots = list(range(J))
 import queue
@@ -29,7 +30,7 @@ bad = 0
 with ThreadPoolExecutor(J) as ex:
     for p, out in ex.map(run, todo):
         al = [l for l in out.splitlines() if l.startswith(("ALARM", "ERROR", "PATCH-DOES"))]
-        print("%-18s %s" % (p, "SILENT" if not al else "FALSE-ALARM " + " ".join(sorted(set(l.split()[1] for l in al)))))
+        print("%-18s %s%s" % (p, "SILENT" if not al else "FALSE-ALARM " + " ".join(sorted(set(l.split()[1] for l in al))), "  (known residual, DESIGN 9.15)" if al and p in known else ""))
         if al:
             bad += 1
             for l in out.splitlines():
